@@ -32,7 +32,7 @@ func init() {
 			"the credential is fixed (alice / pw1); key derivation does not depend on the credential's value beyond being an input of PBKDF2",
 		},
 		Units:          units,
-		QuickBudget:    60,
+		QuickBudget:    240,
 		ThoroughBudget: 600,
 	})
 }
